@@ -11,7 +11,7 @@ PROPERTY = {
     'technique': 'CrossHair symbolic execution of two related builds per path (metamorphic): a merge sequence with symbolic delete/priority flags vs. its transformed twin (rebuilt, last document repeated, empty document inserted at a symbolic position, keys permuted, !unsafe / !new marker added at a selector-chosen node); z3 decides equality on every path',
     'assumptions': [
         'metadata codec stub for !metadata:sK sites (native replays use the real pickle codec)',
-        'document families: the C04 family (flat focus, falsy leaves) and a deep family (mapping chain a.b.c with lists 2..3 levels below the tagged nodes)',
+        'document families: the C04 family (flat focus, falsy leaves), a deep family (mapping chain a.b.c with lists 2..3 levels below the tagged nodes) and a root family (3 documents, symbolic priority on the ROOT of the first and last document, optional forced sub-tree in the middle one)',
     ],
     'bounds': {'stages': '2..3', 'marker positions': 'every node of every document of the deep family (root, a, b, c, lists) and root/focus of the C04 family',
                'flags': 'delete {absent,T,F} x priority {absent,-1,0,1} on one node of the newer document (+ a second delete site in the deep family)',
@@ -86,6 +86,15 @@ def _family(split, ppn, pn, dpn, dn, dp2, d2):
         if split.get('third'):
             specs.append(('m', [('p', ('m', [('y', ('s', 20)), ('t', ('s', 0))], None))], None))
         return specs
+    if split['fam'] == 'root':
+        # flags on the ROOT of the first and of the last document (a root's own priority must not leak into what is merged into it)
+        r1 = ('r1', {'priority': -1 if dn else 1}) if dpn else None
+        r3 = ('r3', {'priority': pn}) if ppn else None
+        sf = ('sf', {'priority': 1}) if dp2 else None
+        d1 = ('m', [('a', ('s', 1))], r1)
+        d2_ = ('m', [('b', ('s', 2)), ('s', ('m', [('x', ('s', 1)), ('y', ('m', [('z', ('s', 1))], None))], sf))], None)
+        d3 = ('m', [('b', ('s', 3)), ('c', ('s', 4)), ('s', ('m', [('x', ('s', 2)), ('y', ('m', [('z', ('s', 2))], None))], None))], r3)
+        return [d1, d2_, d3]
     # deep family: lists two and three levels below the tagged nodes
     s2 = ('s2', {'delete': d2}) if dp2 else None
     d1 = ('m', [('a', ('m', [('b', ('m', [('c', ('m', [('l', ('l', [('s', 1), ('s', 2), ('s', 3)], None)), ('k', ('s', 5))], None)),
@@ -173,7 +182,8 @@ def _splits(tier):
                     deep.append({'fam': 'deep', 'third': False, 'tr': tr, 'which': which, 'posr': posr})
                 if tier != 'quick' or tr in (1, 4):
                     deep.append({'fam': 'deep', 'third': True, 'tr': tr, 'which': which, 'posr': posr})
-    return deep + out
+    root = [{'fam': 'root', 'tr': tr} for tr in (0, 1, 2, 3)]
+    return deep + root + out
 
 
 HARNESSES = {
